@@ -147,6 +147,7 @@ func genHistory(r *lib.Rng, res *lib.Result) (ops []c02Op, client []map[int]stri
 	profile := r.Intn(3)
 	res.Dist(fmt.Sprintf("profile%d", profile))
 	docs := map[int]string{}
+	base := map[int]string{} // the text of the document when it was opened / last saved (what an undo goes back to)
 	nops := 2 + r.Intn(11)
 	nuri := 1 + r.Intn(2)
 	for i := 0; i < nops; i++ {
@@ -157,6 +158,7 @@ func genHistory(r *lib.Rng, res *lib.Result) (ops []c02Op, client []map[int]stri
 		case !open:
 			op = c02Op{kind: 'o', uri: u, text: genText(r, 30, profile)}
 			docs[u] = op.text
+			base[u] = op.text
 		default:
 			k := r.Intn(20)
 			switch {
@@ -165,6 +167,7 @@ func genHistory(r *lib.Rng, res *lib.Result) (ops []c02Op, client []map[int]stri
 				delete(docs, u)
 			case k < 3:
 				op = c02Op{kind: 's', uri: u, text: cur}
+				base[u] = cur
 			default:
 				nch := 1
 				if r.Chance(1, 4) {
@@ -173,7 +176,13 @@ func genHistory(r *lib.Rng, res *lib.Result) (ops []c02Op, client []map[int]stri
 				op = c02Op{kind: 'c', uri: u}
 				for j := 0; j < nch; j++ {
 					var ch c02Change
-					if r.Chance(1, 12) {
+					if cur != base[u] && r.Chance(1, 5) {
+						// undo everything since the document was opened / saved: the text is the saved text again (the
+						// file on disk, when the editor wrote it), and further edits follow
+						ch = c02Change{full: true, text: base[u]}
+						cur = ch.text
+						res.Dist("change.back-to-saved-text")
+					} else if r.Chance(1, 12) {
 						ch = c02Change{full: true, text: genText(r, 30, profile)}
 						cur = ch.text
 						res.Dist("change.full")
@@ -485,6 +494,16 @@ func runC02(res *lib.Result, tier string, seed int64, args []string) error {
 					os.WriteFile(filepath.Join(dir, rel), []byte("-- stale on disk\r\n"), 0o644)
 				case 2:
 					os.Remove(filepath.Join(dir, rel))
+				default:
+					// the file as the client read it; a change on disk that happens while the server runs is announced
+					// by the client's file watcher before anything else
+					typ := 2
+					if _, statErr := os.Stat(filepath.Join(dir, rel)); statErr != nil {
+						typ = 1
+					}
+					os.WriteFile(filepath.Join(dir, rel), []byte(o.text), 0o644)
+					sess.Watched(map[string]int{rel: typ})
+					sess.Sync()
 				}
 				err = sess.DidOpen(rel, o.text)
 			case 's':
